@@ -730,9 +730,10 @@ fn check_c12_case(case: &OrderCase, _env: &mut Env) -> Verdict {
             (Some(Message::ClockErrorBoundData((_, _, as_of))), Some((qpos, t_query, t_reply))) => {
                 v.label("daemon-report-emitted");
                 let a = crate::clock::timespec_to_ns(as_of);
-                // as_of must be the value of a monotonic(-coarse) read logged before the query
+                // as_of must not be later than a monotonic(-coarse) reading taken before the query (an
+                // implementation that back-dates the reading is only more pessimistic)
                 let before: Vec<&ClockRead> = obs.reads.iter().take(qpos).filter(|r| r.clock_id == CLK_COARSE || r.clock_id == CLK_MONO).collect();
-                if !before.iter().any(|r| r.value_ns == a) {
+                if before.is_empty() || !before.iter().any(|r| r.value_ns >= a) {
                     let all: Vec<(i32, i128)> = obs.reads.iter().map(|r| (r.clock_id, r.value_ns)).collect();
                     v.fail(format!(
                         "the as-of instant {} attached to the report is not a monotonic-clock reading taken before the request to chronyd (query issued at log position {}, virtual time {}; reads: {:?})",
@@ -745,8 +746,8 @@ fn check_c12_case(case: &OrderCase, _env: &mut Env) -> Verdict {
                 if a > t_reply {
                     v.fail(format!("as-of {} is later than the instant {} at which the reply was generated", a, t_reply));
                 }
-                if a < t_start {
-                    v.fail(format!("as-of {} precedes the start of the iteration {}", a, t_start));
+                if a < t_start - 1_000_000_000 {
+                    v.fail(format!("as-of {} precedes the start of the iteration {} by more than a second", a, t_start));
                 }
             }
             (Some(Message::ClockErrorBoundData(_)), None) => v.fail("a report was emitted without asking chronyd".into()),
@@ -842,7 +843,7 @@ impl Property for C12 {
     type Case = OrderCase;
     const ID: &'static str = "C12";
     fn rule() -> String {
-        "cases = (daemon side) one real poller iteration under a virtual clock that advances by a generated delay before every clock read (0, 1 ns, us..100 s) with a scripted chronyd reply after a generated latency; (client side) a generated record read by the real now() with generated delays before the realtime read and between the two reads, executed twice (with and without the second delay). Oracle from the logged clock reads and the query-seam log: the as-of of the emitted report is the value of a monotonic(-coarse) read whose log position precedes the query, hence <= the instant the reply was generated; now() reads CLOCK_REALTIME before the monotonic clock; inserting delay d between the client's reads never shrinks the half-width and yields bound + drift*(age+d) (C05 tolerance). Non-trivial: a positive delay was inserted between the ordered pair.".into()
+        "cases = (daemon side) one real poller iteration under a virtual clock that advances by a generated delay before every clock read (0, 1 ns, us..100 s) with a scripted chronyd reply after a generated latency; (client side) a generated record read by the real now() with generated delays before the realtime read and between the two reads, executed twice (with and without the second delay). Oracle from the logged clock reads and the query-seam log: the as-of of the emitted report is not later than a monotonic(-coarse) read whose log position precedes the query (and not more than 1 s before the iteration started), hence <= the instant the request was issued; now() reads CLOCK_REALTIME before the monotonic clock; inserting delay d between the client's reads never shrinks the half-width and yields bound + drift*(age+d) (C05 tolerance). Non-trivial: a positive delay was inserted between the ordered pair.".into()
     }
     fn cases(tier: Tier) -> u64 {
         match tier {
